@@ -59,7 +59,6 @@ func NewChunker(fn string) (*Chunker, error) {
 	defer byLines.Close()
 
 	lineManifest := make([]lineAddr, 0)
-	curr := int64(0)
 	for {
 		line, err := byLines.Read()
 		if err != nil {
@@ -68,9 +67,10 @@ func NewChunker(fn string) (*Chunker, error) {
 			}
 			return nil, err
 		}
-		end := curr + int64(len(line)) + 1 // +1 for '\n'
-		lineManifest = append(lineManifest, lineAddr{curr, end})
-		curr = end
+		// blank lines are skipped by Read, so the address has to come from the reader's position
+		end := byLines.Pos()
+		start := end - int64(len(line)) - 1 // -1 for '\n'
+		lineManifest = append(lineManifest, lineAddr{start, end})
 	}
 }
 
